@@ -374,3 +374,77 @@ func VerifC14_Close() {
 	zzverif.Assert(zzverif.LiveLibGoroutines() == 0, "C14/close/goroutines-exit")
 	zzverif.Reach("C14/closed")
 }
+
+// VerifC14_Tree: the controller with its REAL subscription and publisher and a
+// small tree of subscribers: a fatal list error shuts the whole subtree down.
+func VerifC14_Tree() {
+	lc := lifecycle.New()
+	ctx := context.Background()
+	fl := &vFakeLister{resultch: make(chan listResult), done: make(chan struct{})}
+	fw := &vFakeWatcher{evch: make(chan Event, 4), resets: make(chan vResetRec, 8), done: make(chan struct{}), rs: &vRecSub{log: make(chan Event, 1)}}
+	cch := newCache(ctx, vLog{}, lc.ShuttingDown(), symFilter{0})
+	readych := make(chan struct{})
+	sub := newSubscription(vLog{}, lc.ShuttingDown(), readych, cch)
+	c := &controller{readych: readych, watcher: fw, lister: fl, cache: cch, subscription: sub, publisher: newPublisher(vLog{}, sub), log: vLog{}, lc: lc, ctx: ctx}
+	fw.c = c
+	go func() {
+		<-lc.ShuttingDown()
+		close(fl.done)
+		close(fw.done)
+	}()
+	go c.lc.WatchContext(ctx)
+	go c.run()
+
+	tree := zzverif.Param("TREE", 1)
+	s1, err := c.Subscribe()
+	zzverif.Assert(err == nil, "harness/subscribe")
+	var f1 FilterSubscription
+	var cl Controller
+	var s2 Subscription
+	if tree >= 2 {
+		f1, err = c.SubscribeWithFilter(symFilter{1})
+		zzverif.Assert(err == nil, "harness/subscribe")
+	}
+	if tree >= 3 {
+		cl, err = c.Clone()
+		zzverif.Assert(err == nil, "harness/clone")
+		s2, err = cl.Subscribe()
+		zzverif.Assert(err == nil, "harness/subscribe")
+	}
+
+	k := zzverif.NondetInt("k", 1, zzverif.Param("KMAX", 2))
+	for i := 1; i < k; i++ {
+		pl, _ := vSymPodList(1)
+		fl.resultch <- listResult{list: pl}
+		zzverif.Quiesce()
+		<-fw.resets
+	}
+	if zzverif.NondetInt("how", 0, 1) == 0 {
+		fl.resultch <- listResult{err: vInjected}
+	} else {
+		c.Close()
+	}
+	zzverif.Quiesce()
+	zzverif.Assert(vClosed(c.Done()), "C14/fail-stop/done")
+	zzverif.Assert(vClosed(s1.Done()), "C14/subtree-down/subscriber")
+	if f1 != nil {
+		zzverif.Assert(vClosed(f1.Done()), "C14/subtree-down/filtered-subscriber")
+	}
+	if cl != nil {
+		zzverif.Assert(vClosed(cl.Done()), "C14/subtree-down/clone")
+		zzverif.Assert(vClosed(s2.Done()), "C14/subtree-down/subscriber-of-clone")
+	}
+	_, ok := <-s1.Events()
+	zzverif.Assert(!ok, "C14/subtree-down/events-closed")
+	if k == 1 {
+		zzverif.Assert(!vClosed(s1.Ready()), "C14/not-ready")
+		if f1 != nil {
+			zzverif.Assert(!vClosed(f1.Ready()), "C14/not-ready")
+		}
+		if s2 != nil {
+			zzverif.Assert(!vClosed(s2.Ready()), "C14/not-ready")
+		}
+	}
+	zzverif.Assert(zzverif.LiveLibGoroutines() == 0, "C14/subtree-down/goroutines-exit")
+	zzverif.Reach("C14/tree-down")
+}
